@@ -5,6 +5,7 @@ package main
 import (
 	"fmt"
 	"go/constant"
+	"go/types"
 	"regexp"
 	"sort"
 	"strings"
@@ -426,4 +427,54 @@ func ruleC05All(p *Prog, r *Result) {
 		}
 		return false, "EOF / error are not distinguished"
 	})
+}
+
+// ruleC05File (C05.file): a file that bkl writes output into is opened truncating (os.Create, or OpenFile with
+// O_TRUNC): otherwise the tail of a longer, older file survives behind the new stream and what was written
+// does not read back as what was evaluated.
+func ruleC05File(p *Prog, r *Result) {
+	var trunc, wronly, rdwr int64 = -1, -1, -1
+	for _, pk := range p.Pkgs {
+		if pk.Types == nil {
+			continue
+		}
+		for _, imp := range pk.Types.Imports() {
+			if imp.Path() != "os" {
+				continue
+			}
+			get := func(name string) int64 {
+				if c, ok := imp.Scope().Lookup(name).(*types.Const); ok {
+					if v, ok := constant.Int64Val(c.Val()); ok {
+						return v
+					}
+				}
+				return -1
+			}
+			trunc, wronly, rdwr = get("O_TRUNC"), get("O_WRONLY"), get("O_RDWR")
+		}
+	}
+	if trunc <= 0 {
+		r.Undecided("C05.file", "os.O_TRUNC", "", "constant not found")
+		return
+	}
+	n := 0
+	for _, cs := range allCalls(p.Funcs) {
+		pk := fnPkg(cs.Fn)
+		if pk == nil || shortPkg(pk.Pkg.Path()) != "bkl" || cs.Name != "os.OpenFile" {
+			continue
+		}
+		flag, ok := constInt(cs.Instr.Common().Args[1])
+		key := p.FuncName(cs.Fn) + " / os.OpenFile for writing"
+		if !ok {
+			r.Fail("C05.file", key, p.InstrPos(cs.Instr), "the open flags are computed: whether an existing file is truncated cannot be decided")
+			continue
+		}
+		if flag&(wronly|rdwr) == 0 {
+			continue // read-only
+		}
+		n++
+		r.Check(flag&trunc != 0, "C05.file", key, p.InstrPos(cs.Instr), "opened with O_TRUNC: nothing of an earlier file survives",
+			"an output file is opened for writing without O_TRUNC: when the path already holds a longer file, its tail stays behind the new output, which then does not read back as the evaluated stream")
+	}
+	r.Floor("C05.file", "output files opened by the library", n, 1)
 }
